@@ -19,6 +19,45 @@ static void PKey_Assign(var self, var obj) {
 static var PKey = Cello(PKey,
   Instance(Hash, PKey_Hash), Instance(Cmp, PKey_Cmp), Instance(Assign, PKey_Assign));
 
+/* user element types of 1, 4, 12 and 20 bytes (sizes that are not multiples of sizeof(var)):
+ * plain structs with their own Cello type; equality by memcmp, hash scripted by the case from the
+ * integer the bytes encode, assign copies exactly size(type) bytes.  Every byte is determined by
+ * the encoded integer, so a stored element can be checked byte by byte. */
+struct U1 { uint8_t a; };
+struct U4 { int32_t a; };
+struct U12 { int32_t a, b, c; };
+struct U20 { int32_t a, b, c, d, e; };
+static uint64_t hash_for(int64_t k);
+static void u_enc(size_t sz, int64_t id, void* out) {
+  if (sz == 1) { *(uint8_t*)out = (uint8_t)id; return; }
+  int32_t w[5];
+  w[0] = (int32_t)id; w[1] = (int32_t)(-7 * id - 1); w[2] = (int32_t)(0x01010101 * (int32_t)(((id % 100) + 100) % 100 + 1));
+  w[3] = (int32_t)id ^ 0x5a5a5a5a; w[4] = ~(int32_t)id;
+  memcpy(out, w, sz);
+}
+static int64_t u_dec(size_t sz, const void* p) {
+  if (sz == 1) return *(const uint8_t*)p;
+  int32_t a; memcpy(&a, p, 4); return a;
+}
+/* prints the encoded integer when every byte is the encoding's, else the raw bytes */
+static void u_show(size_t sz, const void* p, char* buf, size_t n) {
+  unsigned char want[20]; int64_t id = u_dec(sz, p);
+  u_enc(sz, id, want);
+  if (memcmp(want, p, sz) == 0) { snprintf(buf, n, "%" PRId64, id); return; }
+  size_t o = (size_t)snprintf(buf, n, "BAD");
+  for (size_t i = 0; i < sz && o + 3 < n; i++) o += (size_t)snprintf(buf + o, n - o, "%02x", ((const unsigned char*)p)[i]);
+}
+#define UTYPE(T) \
+  static uint64_t T##_Hash(var self) { return hash_for(u_dec(sizeof(struct T), self)); } \
+  static int T##_Cmp(var a, var b) { return memcmp(a, cast(b, type_of(a)), sizeof(struct T)); } \
+  static void T##_Assign(var self, var obj) { memcpy(self, cast(obj, type_of(self)), sizeof(struct T)); } \
+  static var T = Cello(T, Instance(Hash, T##_Hash), Instance(Cmp, T##_Cmp), Instance(Assign, T##_Assign));
+UTYPE(U1) UTYPE(U4) UTYPE(U12) UTYPE(U20)
+
+/* element kinds of a case: 0 = as before (Int / PKey keys, Int values), else a user type of that size */
+static size_t kkind, vkind;
+static var utype(size_t sz) { return sz == 1 ? U1 : sz == 4 ? U4 : sz == 12 ? U12 : U20; }
+
 #define MAXH 256
 static int64_t hk[MAXH]; static uint64_t hv[MAXH]; static int nh; static int ident;
 
@@ -28,28 +67,49 @@ static uint64_t hash_for(int64_t k) {
 }
 
 static var mkkey(int64_t k) {
+  if (kkind) { var p = alloc_raw(utype(kkind)); u_enc(kkind, k, p); return p; }
   if (ident) return new_raw(Int, $I(k));
   struct PKey* p = new_raw(PKey);
   p->id = k; p->h = hash_for(k);
   return p;
 }
-static int64_t key_id(var k) { return ident ? c_int(k) : ((struct PKey*)k)->id; }
+static var mkval(int64_t v) {
+  if (vkind) { var p = alloc_raw(utype(vkind)); u_enc(vkind, v, p); return p; }
+  return new_raw(Int, $I(v));
+}
+static void show_key(var k, char* buf, size_t n) {
+  if (kkind) { if (type_of(k) isnt utype(kkind)) snprintf(buf, n, "BADTYPE"); else u_show(kkind, k, buf, n); return; }
+  snprintf(buf, n, "%" PRId64, ident ? (int64_t)c_int(k) : ((struct PKey*)k)->id);
+}
+static void show_val(var v, char* buf, size_t n) {
+  if (vkind) { if (type_of(v) isnt utype(vkind)) snprintf(buf, n, "BADTYPE"); else u_show(vkind, v, buf, n); return; }
+  snprintf(buf, n, "%" PRId64, (int64_t)c_int(v));
+}
 
 static void dump(var tv) {
   struct Table* t = tv;
+  char kb[64], vb[64];
   P(";%zu;", len(tv));
+  if (kkind or vkind) {
+    /* white-box layout: slot step without the two headers, reserved key and value bytes */
+    P("L%zu.%zu.%zu;", Table_Step(t) - 2 * sizeof(struct Header), t->ksize, t->vsize);
+  }
   for (size_t i = 0; i < t->nslots; i++) {
     uint64_t h = Table_Key_Hash(t, i);
     if (i) P(",");
     if (h == 0) P("_");
-    else P("%" PRIu64 ":%" PRId64 ":%" PRId64, h, key_id(Table_Key(t, i)), (int64_t)c_int(Table_Val(t, i)));
+    else {
+      show_key(Table_Key(t, i), kb, sizeof kb); show_val(Table_Val(t, i), vb, sizeof vb);
+      P("%" PRIu64 ":%s:%s", h, kb, vb);
+    }
   }
   P(";");
   int first = 1; size_t cnt = 0;
   foreach (k in tv) {
     if (!first) P(",");
     first = 0;
-    P("%" PRId64 ":%" PRId64, key_id(k), (int64_t)c_int(get(tv, k)));
+    show_key(k, kb, sizeof kb); show_val(get(tv, k), vb, sizeof vb);
+    P("%s:%s", kb, vb);
     if (++cnt > 4 * t->nslots + 8) { P(",RUNAWAY"); break; }
   }
 }
@@ -59,6 +119,13 @@ static void one_case(char* line) {
   if (!bar) { P("BADCASE"); return; }
   *bar = 0;
   char* hs = line; char* ops = bar + 1;
+  kkind = vkind = 0;
+  if (hs[0] == 't') {            /* t<ksize>.<vsize>;<hashspec> */
+    char* semi = strchr(hs, ';'); char* dot = strchr(hs, '.');
+    if (!semi || !dot || dot > semi) { P("BADCASE"); return; }
+    kkind = (size_t)strtoul(hs + 1, NULL, 10); vkind = (size_t)strtoul(dot + 1, NULL, 10);
+    hs = semi + 1;
+  }
   nh = 0; ident = strcmp(hs, "id") == 0;
   if (!ident) {
     char* s = hs; char* tok;
@@ -67,7 +134,8 @@ static void one_case(char* line) {
       *c = 0; hk[nh] = strtoll(tok, NULL, 10); hv[nh] = strtoull(c + 1, NULL, 10); nh++;
     }
   }
-  var KT = ident ? Int : PKey;
+  var KT = kkind ? utype(kkind) : ident ? Int : PKey;
+  var VT = vkind ? utype(vkind) : Int;
   var t = NULL;
   char* s = ops; char* tok;
   int started = 0;
@@ -78,18 +146,18 @@ static void one_case(char* line) {
       if (tok[0] == 'n') {
         /* new with initial pairs */
         var args = new_raw(Tuple);
-        push(args, KT); push(args, Int);
+        push(args, KT); push(args, VT);
         char* q = tok + 1; char* pr;
         while ((pr = next_tok(&q, ',')) != NULL) {
           char* c = strchr(pr, ':'); if (!c) continue; *c = 0;
           push(args, mkkey(strtoll(pr, NULL, 10)));
-          push(args, new_raw(Int, $I(strtoll(c + 1, NULL, 10))));
+          push(args, mkval(strtoll(c + 1, NULL, 10)));
         }
         t = new_raw_with(Table, args);
         P("new"); dump(t);
         continue;
       }
-      t = new_raw(Table, KT, Int);
+      t = new_raw(Table, KT, VT);
       P("new"); dump(t);
     }
     const char* res = "ok"; char rbuf[64];
@@ -97,20 +165,24 @@ static void one_case(char* line) {
       switch (tok[0]) {
         case 's': { char* c = strchr(tok, ','); *c = 0;
           var k = mkkey(strtoll(tok + 1, NULL, 10));
-          set(t, k, $I(strtoll(c + 1, NULL, 10))); del_raw(k); break; }
+          var v = mkval(strtoll(c + 1, NULL, 10));
+          set(t, k, v); del_raw(k); del_raw(v); break; }
         case 'r': { var k = mkkey(strtoll(tok + 1, NULL, 10)); rem(t, k); del_raw(k); break; }
         case 'g': { var k = mkkey(strtoll(tok + 1, NULL, 10));
-          var v = get(t, k); snprintf(rbuf, sizeof rbuf, "v%" PRId64, (int64_t)c_int(v)); res = rbuf; del_raw(k); break; }
+          var v = get(t, k); rbuf[0] = 'v'; show_val(v, rbuf + 1, sizeof rbuf - 1); res = rbuf; del_raw(k); break; }
         case 'm': { var k = mkkey(strtoll(tok + 1, NULL, 10)); res = mem(t, k) ? "true" : "false"; del_raw(k); break; }
         case 'z': resize(t, (size_t)strtoull(tok + 1, NULL, 10)); break;
         case 'c': { var t2 = assign(alloc_raw(Table), t); del_raw(t); t = t2; break; }
+        case 'a': { /* assign over an existing table of other element types with a binding of its own */
+          var t2 = new_raw(Table, Int, Int); set(t2, $I(7), $I(8));
+          assign(t2, t); del_raw(t); t = t2; break; }
         default: res = "BADOP";
       }
     } catch (e) { res = exn_name(e); }
     P(" | %s", res); dump(t);
     fflush(OUT);
   }
-  if (!started) { t = new_raw(Table, KT, Int); P("new"); dump(t); }
+  if (!started) { t = new_raw(Table, KT, VT); P("new"); dump(t); }
 }
 
 int main(int argc, char** argv) {
